@@ -38,14 +38,30 @@ FLOORS["thorough"] = dict(FLOORS["quick"])
 DEFAULTS = [b"", b"", b"\x00" * 32, b"dflt"]
 
 
+
+def pattern_key(rnd, depth, near=None):
+    """Keys made of long runs of equal bits (all zeros, all ones, 0111..1, 1000..0, 0101.., a run
+    of ones of random length, everything-but-one-bit): XORs of such keys are long runs of ones,
+    which is where arithmetic on bit positions goes wrong.  With `near`, the key differs from
+    it by such a run."""
+    full = (1 << depth) - 1
+    pats = [0, full, full >> 1, 1 << (depth - 1), 1, full ^ 1, int("01" * (depth // 2), 2), int("10" * (depth // 2), 2),
+            (1 << rnd.randrange(1, depth + 1)) - 1, full ^ ((1 << rnd.randrange(0, depth)) - 1)]
+    p = rnd.choice(pats)
+    return (near ^ p) & full if near is not None and rnd.random() < 0.5 else p
+
+
 def gen_case(rnd, tier, ks=None):
-    ks = ks or rnd.choice([1, 1, 2, 3, 8, 32] if tier == "quick" else [1, 2, 3, 4, 8, 16, 20, 32])
+    ks = ks or rnd.choice([1, 1, 2, 3, 7, 8, 9, 32] if tier == "quick" else [1, 2, 3, 4, 7, 8, 9, 16, 20, 31, 32])
     depth = ks * 8
     default = rnd.choice(DEFAULTS)
-    tracked = rnd.getrandbits(depth)
+    patterned = rnd.random() < 0.3
+    tracked = pattern_key(rnd, depth) if patterned else rnd.getrandbits(depth)
 
     def rk():
         r = rnd.random()
+        if patterned and r < 0.7:
+            return pattern_key(rnd, depth, near=tracked)
         if r < 0.2:
             return tracked
         if r < 0.75:
